@@ -279,3 +279,25 @@ Definition same_content (a b : option fent) : bool :=
   end.
 Definition converged (U : list N) (w : world) : bool :=
   forallb (fun p => same_content (w_src w p) (w_dst w p)) U.
+
+(* ---------- paths that an ignore rule hides on one side (`fix: bisync leaves a file alone that an ignore rule hides on one
+   side`) ----------
+   [hs p] / [hd p]: the scan of that side does not list p (.ignore, .gitignore) -- whether or not a file is there.  The classifier
+   sees the scanned trees; a path that is hidden on a side where a file exists is left alone (no action), every other path is
+   classified and executed as before. *)
+Definition visible (h : N -> bool) (m : fmap fent) : fmap fent := fun p => if h p then None else m p.
+Definition present (o : option fent) : bool := match o with Some _ => true | None => false end.
+Definition hidden_somewhere (hs hd : N -> bool) (w : world) (p : N) : bool :=
+  (hs p && present (w_src w p)) || (hd p && present (w_dst w p)).
+Definition scanned (hs hd : N -> bool) (w : world) : world :=
+  mk_world (visible hs (w_src w)) (visible hd (w_dst w)) (w_dbs w) (w_dbd w).
+
+Definition sync_step_h (st : strategy) (now : Z) (hs hd : N -> bool) (w0 : world) (acc : world) (p : N) : world :=
+  if hidden_somewhere hs hd w0 p then acc
+  else match action_of st (scanned hs hd w0) p with
+       | Some a => exec now acc p a
+       | None => acc
+       end.
+
+Definition sync_files_h (U : list N) (st : strategy) (now : Z) (hs hd : N -> bool) (w : world) : world :=
+  fold_left (sync_step_h st now hs hd w) U w.
